@@ -11,6 +11,10 @@ pub mod src;
 pub use src::*;
 
 pub mod c07_win;
+pub mod c02_layout;
+pub mod c09_numbers;
+pub mod c17_paths;
+pub mod c19_confidence;
 pub mod c18_regs;
 pub mod c18_gen;
 
@@ -19,5 +23,9 @@ pub fn registry() -> Vec<(&'static str, fn(&mut TapeSrc))> {
     let mut v: Vec<(&'static str, fn(&mut TapeSrc))> = Vec::new();
     c07_win::register(&mut v);
     c18_gen::register(&mut v);
+    c17_paths::register(&mut v);
+    c02_layout::register(&mut v);
+    c09_numbers::register(&mut v);
+    c19_confidence::register(&mut v);
     v
 }
